@@ -134,10 +134,35 @@ def run(report, p):
                 import re._parser as sre_parse  # py3.11+
             except Exception:  # pragma: no cover
                 import sre_parse
-            m2 = re.fullmatch(r"\^\(\\d\{(\d+),\}\)\(\?:_\(\.\+\)\)\?\$", rx)
-            min_digits = int(m2.group(1)) if m2 else None
+            # structure of the loader's regex (parsed, not matched as text): a leading group of at least N digits ...
+            try:
+                tree = sre_parse.parse(rx)
+            except Exception as e:
+                raise AnalysisError(f"history_file_name_regex {rx!r} does not compile: {e}")
+            min_digits = None
+            any_name = False
+
+            def _walk(items):
+                nonlocal min_digits, any_name
+                for op, av in items:
+                    opn = str(op)
+                    if opn in ("MAX_REPEAT", "MIN_REPEAT"):
+                        lo, hi, sub = av
+                        subl = list(sub)
+                        if min_digits is None and len(subl) == 1 and str(subl[0][0]) == "IN" and any(str(x[0]) == "CATEGORY" and "DIGIT" in str(x[1]) and "NOT" not in str(x[1]) for x in subl[0][1]):
+                            min_digits = lo
+                        if len(subl) == 1 and str(subl[0][0]) == "ANY" and lo <= 1 and str(hi) == "MAXREPEAT":
+                            any_name = True
+                        _walk(subl)
+                    elif opn == "SUBPATTERN":
+                        _walk(list(av[3]))
+                    elif opn == "BRANCH":
+                        for b in av[1]:
+                            _walk(list(b))
+
+            _walk(list(tree))
             if min_digits is None:
-                raise AnalysisError(f"history_file_name_regex {rx!r} has a shape this checker does not model")
+                raise AnalysisError(f"history_file_name_regex {rx!r} has a shape this checker does not model (no leading digit group)")
             if width is None or width < min_digits:
                 ok3, why = False, f"the number is formatted with {spec or 'no'} padding but the loader requires at least {min_digits} digits"
             elif not (len(parts) >= 3 and isinstance(parts[1], ast.Constant) and str(parts[1].value).startswith("_")):
@@ -149,15 +174,74 @@ def run(report, p):
                     ok3, why = False, f"the name does not end with the manifest extension {ext!r}"
             # cross-check with concrete instantiations against the regex itself (constants only; no repository code is run)
             if ok3:
+                folders = ("root", "My Folder_2", "a.b", "ü", "Reel 03 (A-cam) #2", "R&D", "x+y", "50%", "a,b;c", "[1]", "{x}", "!$'~@^`=", "日本語", " lead", "trail ", ".hidden", "dots..", "a\tb", "_", "-", "0001_x")
                 for idx in (1, 42, 9999, 10000, 123456):
-                    for folder in ("root", "My Folder_2", "a.b", "ü"):
+                    for folder in folders:
                         nm = f"{idx:0{width}d}_{folder}_2020-01-16_091500Z"
-                        if not re.findall(rx, nm) or len(re.findall(rx, nm)) != 1 or int(re.findall(rx, nm)[0][0]) != idx:
-                            ok3, why = False, f"sample name {nm!r} is not parsed back to generation {idx}"
+                        found = re.findall(rx, nm)
+                        if not found or len(found) != 1 or int(found[0][0] if isinstance(found[0], tuple) else found[0]) != idx:
+                            ok3, why = False, f"the manifest name {nm!r} (folder name {folder!r}) is not recognised by the loader's pattern {rx!r}: every generation of a folder with such a name is silently skipped when the history is loaded - it looks empty, verify and verify -dh exit 0 on anything"
+                            break
+                    if not ok3:
+                        break
+                if ok3 and not any_name:
+                    raise AnalysisError(f"history_file_name_regex {rx!r}: the name part is not `.+`; the sample names all match, but acceptance of every folder name is not established")
         r3.check(ok3, gen_helper, rets[0], "a generated manifest name would not be recognised by the loader: " + why, construct="name template vs loader regex")
         loader = p.funcs.get(f"{HIST}.load_from_path")
         lt = norm(loader.node)
         r3.check("int(parts[0][0])" in lt and "endswith(ascmhl_file_extension)" in lt and "os.path.splitext(filename)" in lt, loader, loader.node, "the loader no longer filters by extension / parses the generation number from the first regex group", construct="loader name parsing")
+
+    # the loader's skip filter, evaluated on generated names: no manifest the tool itself names may be passed over
+    if gen_helper is not None and loader is not None:
+        from sa.absint import UNKNOWN, Evaluator, Val
+        from sa.cfg import cfg_of as _cfg
+
+        gl = _cfg(loader)
+        lloops = [n for n in walk_no_nested(loader.node) if isinstance(n, ast.For) and isinstance(n.target, ast.Name) and "filename" in n.target.id]
+        skips = [c for lp in lloops for st in lp.body for c in ast.walk(st) if isinstance(c, ast.Continue)]
+        # conditions (as written) that lead to a `continue` in the loop over the folder's file names, before the name is parsed
+        class _T:  # (whole `if` test, branch) pairs between the `continue` and its loop: their conjunction is the skip condition
+            def __init__(self, a):
+                self.ast = a
+
+        for c in skips:
+            deps = []
+            x, par = c, parent(c)
+            while par is not None and not isinstance(par, (ast.For, ast.While)):
+                if isinstance(par, ast.If):
+                    deps.append((_T(par.test), "T" if any(y is x for y in par.body) else "F"))
+                x, par = par, parent(par)
+            if not deps:
+                continue
+            fname = next(lp.target.id for lp in lloops if any(x is c for st in lp.body for x in ast.walk(st)))
+            if not all(any(isinstance(x, ast.Name) and x.id == fname for x in ast.walk(t.ast)) for t, l in deps):
+                continue  # not a test on the file name (e.g. the regex result): judged above
+            r3.instance(loader, c, f"loader skip filter: {[norm(t.ast)[:60] for t, l in deps]}")
+            width_ = width if isinstance(width, int) else 4
+            bad = None
+            for folder in ("root", "Vol.", "a._b", "My Folder_2", "x.mhl", "._", "R&D", "ü", ".hidden", "tmp", "a b"):
+                nm = f"{1:0{width_}d}_{folder}_2020-01-16_091500Z{ext}"
+
+                def atom(e, env, nm=nm):
+                    if isinstance(e, ast.Name) and e.id == fname:
+                        return Val(nm)
+                    if isinstance(e, ast.Name):
+                        v = p.fold(e, loader)
+                        if isinstance(v, (str, int)):
+                            return Val(v)
+                    return None
+
+                ev = Evaluator(atom, where=loader.qual, value_boolops=False)
+                taken = True
+                for t, l in deps:
+                    v = ev.eval(t.ast, {})
+                    if v is UNKNOWN:
+                        raise AnalysisError(f"{loader.loc(t.ast)}: the loader's skip condition `{norm(t.ast)[:70]}` could not be evaluated for the name {nm!r}")
+                    taken = taken and (bool(v) == (l == "T"))
+                if taken:
+                    bad = (nm, folder)
+                    break
+            r3.check(bad is None, loader, c, f"the loader passes over the manifest {bad[0]!r} (folder name {bad[1]!r}) that the tool itself writes: under `{' and '.join(norm(t.ast)[:60] for t, l in deps)}` every generation of such a folder is silently skipped, the history looks empty" if bad else "", construct="loader skip filter hits a generated manifest name")
 
     # ------------------------------------------------------------------ R6.4
     r4 = report.rule(
@@ -230,6 +314,7 @@ def run(report, p):
                 f.rule = rr.id
             report.rules.append(rr)
 
+    include_rules(report, p, 'c13', ['R13.7'], 'the <folder> part of NNNN_<folder>_<time>Z.mhl is the name of the root folder, whatever the spelling of the root (., x/., trailing separator)')
     include_rules(report, p, 'c08', ['R8.6'], 'exactly one new manifest and chain entry per touched history: the commit loop writes every history that received records or references, and skips only the others')
     include_rules(report, p, 'c16', ['R16.4'], 'the manifest name carries the UTC time')
     report.not_decided += ["byte-for-byte stability of earlier manifests at run time", "collision of the fresh name with a foreign file", "several runs within the same clock second (names differ by number, not by time)"]
